@@ -1172,9 +1172,17 @@ pub fn gen(rng: &mut Rng) -> String {
         T::L(vec![T::I(1), T::I(li), T::I(*rng.pick(FEATURE_TAGS)), alt, T::I(start), T::I(length)])
     };
     let mut top = vec![gdef, layout, run, T::L(glyphs)];
-    // feature variations: half of the gsub::apply runs get a version 1.1 table and a variation tuple
-    if (run_is_apply && rng.chance(1, 2)) || (!run_is_apply && rng.chance(1, 12)) {
-        top.push(gen_fv(rng, nfeat, nlookups));
+    // feature variations: half of the gsub::apply runs get a version 1.1 table and a variation tuple.  The
+    // element is drawn from a generator of its own, seeded by the case generated so far: the caller's random
+    // stream is consumed exactly as before this element existed, so the first four elements of every case
+    // (and the streams of the C01 / C02 harnesses, which call this function) are unchanged.
+    let mut h: u64 = 0xcbf29ce484222325;
+    for b in T::L(top.clone()).to_string().bytes() {
+        h = (h ^ b as u64).wrapping_mul(0x100000001b3);
+    }
+    let mut frng = Rng::new(h);
+    if (run_is_apply && frng.chance(1, 2)) || (!run_is_apply && frng.chance(1, 12)) {
+        top.push(gen_fv(&mut frng, nfeat, nlookups));
     }
     format!("{} {}", build_mode(), T::L(top))
 }
